@@ -41,6 +41,41 @@ class SymArray(real_np.ndarray):
         return arr.view(SymArray) if isinstance(arr, real_np.ndarray) else arr
 
 
+def _cmp_obj(op):
+    uf = {"ge": real_np.greater_equal, "le": real_np.less_equal, "gt": real_np.greater, "lt": real_np.less}[op]
+
+    def f(self, other):
+        if self.dtype == object or (isinstance(other, real_np.ndarray) and other.dtype == object) or is_sym(other):
+            # elementwise comparison WITHOUT converting each result to bool (no fork per element): the consumer
+            # (np.all / np.any in the proxy) builds one conjunction / disjunction
+            r = uf(real_np.asarray(self), real_np.asarray(other) if isinstance(other, real_np.ndarray) else other, dtype=object)
+            return r.view(real_np.ndarray)
+        return uf(real_np.asarray(self), other)
+
+    return f
+
+
+class CmpArray(SymArray):
+    """result of np.tile / np.linalg.norm in repository modules: the operands of the feasibility comparisons.
+    Its ordering comparisons return object arrays of symbolic booleans instead of forking once per element."""
+
+    __ge__ = _cmp_obj("ge")
+    __le__ = _cmp_obj("le")
+    __gt__ = _cmp_obj("gt")
+    __lt__ = _cmp_obj("lt")
+
+
+class _Linalg:
+    def __getattr__(self, k):
+        return getattr(real_np.linalg, k)
+
+    def norm(self, x, *a, **k):
+        r = real_np.linalg.norm(x, *a, **k)
+        if isinstance(r, real_np.ndarray) and r.dtype == object:
+            return r.view(CmpArray)
+        return r
+
+
 def _symview(r):
     if isinstance(r, real_np.ndarray) and r.dtype == object and not isinstance(r, SymArray):
         return r.view(SymArray)
@@ -95,7 +130,7 @@ class NPProxy(types.ModuleType):
     def __init__(self):
         super().__init__("np_proxy")
         self.random = _Random(real_np.random)
-        self.linalg = real_np.linalg
+        self.linalg = _Linalg()
         self.ndarray = real_np.ndarray
 
     def __getattr__(self, k):
@@ -141,6 +176,12 @@ class NPProxy(types.ModuleType):
 
     def sin(self, x):
         return real_np.sin(self._floatify(x))
+
+    def tile(self, a, reps):
+        r = real_np.tile(a, reps)
+        if isinstance(r, real_np.ndarray) and r.dtype == object:
+            return r.view(CmpArray)
+        return r
 
     def isscalar(self, x):
         return is_sym(x) or real_np.isscalar(x)
